@@ -49,14 +49,22 @@ SPELLING = {
     'ThematicBreak': {'line': 'V'},
     'Table': {'column_align': 'R', 'header': 'R'},
 }
+# normalize_whitespace=True is documented to replace the original spacing after a list item leader
+# (MarkdownRenderer.__init__ docstring): these two spellings are deliberately not reproduced then
+NORMALIZE_EXEMPT = {('ListItem', 'prepend'), ('ListItem', 'indentation')}
 CHILD_CONTENT = ('AutoLink', 'EscapeSequence', 'BlockCode', 'CodeFence', 'HtmlBlock')
 
 
-def labels_in(v, out, depth=0):
+def labels_in(v, out, depth=0, lossy=None):
     if depth > 8:
         return
     if isinstance(v, T.Taint):
         out.add(v.label.split(':')[0])
+        for grp in getattr(v, 'extra_labels', ()):
+            for l in grp:
+                out.add(l.split(':')[0])
+        if lossy is not None and v.lossy():
+            lossy.setdefault(v.label.split(':')[0], set()).update(v.lossy())
     elif isinstance(v, AbsStr):
         _prov_labels(v.prov, out)
     elif isinstance(v, AbsInt):
@@ -64,23 +72,23 @@ def labels_in(v, out, depth=0):
     elif isinstance(v, T.Skel):
         for p in v.parts:
             if isinstance(p, T.Hole):
-                labels_in(p.value, out, depth + 1)
+                labels_in(p.value, out, depth + 1, lossy)
     elif isinstance(v, T.PaddedVal):
-        labels_in(v.inner, out, depth + 1)
+        labels_in(v.inner, out, depth + 1, lossy)
     elif isinstance(v, GenVal):
         for x in v.items:
-            labels_in(x, out, depth + 1)
+            labels_in(x, out, depth + 1, lossy)
     elif isinstance(v, StarOf):
-        labels_in(v.inner, out, depth + 1)
+        labels_in(v.inner, out, depth + 1, lossy)
     elif isinstance(v, (list, tuple)):
         for x in v:
-            labels_in(x, out, depth + 1)
+            labels_in(x, out, depth + 1, lossy)
     elif isinstance(v, Obj):
         for x in v.attrs.values():
-            labels_in(x, out, depth + 1)
+            labels_in(x, out, depth + 1, lossy)
     elif isinstance(v, AbsSeq):
         for x in list(v._cache.values()):
-            labels_in(x, out, depth + 1)
+            labels_in(x, out, depth + 1, lossy)
         _prov_labels(v.prov, out)
 
 
@@ -114,6 +122,7 @@ def _task(args):
     recs = []
     loaded = {}
     labels = set()
+    lossy = {}
     n_paths = 0
     is_block = 'max_line_length' in func.params()
 
@@ -132,8 +141,8 @@ def _task(args):
             else:
                 recs.append(('raise', po.raised.exc.kind))
             continue
-        labels_in(po.value, labels)
-    return key, func.short, recs, sorted(labels), n_paths
+        labels_in(po.value, labels, lossy=lossy)
+    return key, func.short, recs, sorted(labels), n_paths, {k: sorted(v) for k, v in lossy.items()}
 
 
 class LoadSpy:
@@ -166,25 +175,34 @@ def run(ctx):
         if not ok:
             rep.find('R-MD-TOKENS', cfg.cls.short + '.__init__', what, 'while MarkdownRenderer is active: %s does not hold' % what,
                      loc(model.unit_of(cfg.cls), cfg.cls.node))
-    # ---- interpretation of every render method
-    uni = universe(cfg, facts)
-    by_name = {}
-    for c in uni:
-        by_name.setdefault(c.name, []).append(c)
+    # ---- interpretation of every render method, under every option valuation
     lrd = model.classes.get('mistletoe.markdown_renderer.LinkReferenceDefinition')
-    if lrd is not None and lrd in facts.instances:
-        by_name.setdefault('LinkReferenceDefinition', []).append(lrd)
     tasks = []
-    for key, func in sorted(cfg.render_map.items()):
-        if isinstance(func, FuncInfo):
-            for cls in by_name.get(key, []):
-                tasks.append((model, cfg, facts, key, func, cls))
+    for c in cfgs:
+        uni = universe(c, facts)
+        by_name = {}
+        for k in uni:
+            by_name.setdefault(k.name, []).append(k)
+        if lrd is not None and lrd in facts.instances:
+            by_name.setdefault('LinkReferenceDefinition', []).append(lrd)
+        for key, func in sorted(c.render_map.items()):
+            if isinstance(func, FuncInfo):
+                for cls in by_name.get(key, []):
+                    tasks.append((model, c, facts, key, func, cls))
     results = {}
-    for key, fshort, recs, labels, n_paths in pmap(_task, tasks):
+    lossy_all = {}
+    for (m_, c, f_, key_, func_, cls_), (key, fshort, recs, labels, n_paths, lossy) in zip(tasks, pmap(_task, tasks)):
         rep.instance('R-SPELL-SET')
-        results[key] = (fshort, labels, n_paths)
+        prev = results.get(key)
+        # a label must reach the output under every valuation (documented exemptions below)
+        lab = set(labels)
+        if c.valuation.get('normalize_whitespace'):
+            lab |= {'%s.%s' % e for e in NORMALIZE_EXEMPT}
+        results[key] = (fshort, sorted(lab & set(prev[1])) if prev else sorted(lab), n_paths + (prev[2] if prev else 0))
+        for lab, ops in lossy.items():
+            lossy_all.setdefault((key, lab), set()).update(ops)
         errs = [r for r in recs if r[0] == 'attr-error']
-        rep.obligation('R-SPELL-SET', not errs, {'method': fshort, 'token': key, 'paths': n_paths})
+        rep.obligation('R-SPELL-SET', not errs, {'method': fshort, 'token': key, 'config': c.key(), 'paths': n_paths})
         for e in errs:
             attr = e[1][1] if len(e[1]) > 1 else '?'
             rep.find('R-SPELL-SET', fshort, '%s.%s' % (key, attr), '%s reads %s.%s, which some constructor path of %s does not '
@@ -204,6 +222,13 @@ def run(ctx):
             read = attr in src
             flows = ('%s.%s' % (cname, attr)) in labels
             ok = read and (flows or mode == 'R')
+            lost = sorted(lossy_all.get((cname, '%s.%s' % (cname, attr)), ()))
+            if ok and mode == 'V' and lost:
+                rep.obligation('R-SPELL-USED', False, {'class': cname, 'attr': attr, 'method': fshort, 'lossy_operations': lost})
+                rep.find('R-SPELL-USED', fshort, '%s.%s:lossy' % (cname, attr),
+                         'the source spelling %s.%s reaches the output of %s only through %s, which can change it'
+                         % (cname, attr, fshort, '/'.join(lost)), loc(model.unit_of(func), func.node))
+                continue
             rep.obligation('R-SPELL-USED', ok, {'class': cname, 'attr': attr, 'method': fshort, 'read': read,
                                                'flows_to_output': flows if mode == 'V' else 'n/a (control)'})
             if not ok:
@@ -218,12 +243,38 @@ def run(ctx):
         n += 1
         rep.instance('R-SPELL-USED')
         ok = 'RawText.content' in labels
+        lost = sorted(lossy_all.get((cname, 'RawText.content'), ())) if cname in ('CodeFence',) else []   # only fenced code can end in several significant newlines
+        if ok and lost and _method_lossy(cfg.render_map[cname]):
+            rep.obligation('R-SPELL-USED', False, {'class': cname, 'attr': 'content', 'lossy_operations': lost})
+            rep.find('R-SPELL-USED', fshort, '%s.content:lossy' % cname, 'the text of %s reaches the output of %s only through %s, '
+                     'which can change it' % (cname, fshort, '/'.join(lost)), loc(model.unit_of(cfg.render_map[cname]), cfg.render_map[cname].node))
+            continue
         rep.obligation('R-SPELL-USED', ok, {'class': cname, 'attr': 'children[0].content', 'method': fshort})
         if not ok:
             rep.find('R-SPELL-USED', fshort, '%s.content' % cname, 'the text of %s does not reach the output of %s' % (cname, fshort),
                      loc(model.unit_of(cfg.render_map[cname]), cfg.render_map[cname].node))
     rep.floor('R-SPELL-USED', n, 33)
     rep.assume('spelling table: class -> attributes kept for the round trip, confirmed by reading the constructors')
+
+
+def _method_lossy(func):
+    """Does the method (or a helper of its class it calls) apply a lossy string operation to .content?"""
+    import ast
+    from ..model import walk_function
+    funcs = [func]
+    if func.cls is not None:
+        for n in walk_function(func.node):
+            if isinstance(n, ast.Call) and isinstance(n.func, ast.Attribute) and isinstance(n.func.value, ast.Name) \
+                    and n.func.value.id == func.params()[0]:
+                hit = func.cls.lookup(n.func.attr)
+                if hit is not None and hit[0] == 'method':
+                    funcs.append(hit[1])
+    for f in funcs:
+        for n in walk_function(f.node):
+            if isinstance(n, ast.Call) and isinstance(n.func, ast.Attribute) and n.func.attr in T.Taint.LOSSY:
+                if 'content' in ast.unparse(n.func.value):
+                    return True
+    return False
 
 
 def _loads_of_token(func):
